@@ -294,6 +294,10 @@ class Chain(Part):
             # an earlier failure inside another template's macro that an
             # on-error element has handled: it must leave no trace
             "handled_before": st.booleans(),
+            # the macro expression of a call site has a part of its own
+            # that is evaluated (load: ${...}.pt)
+            "call_form": st.sampled_from(["plain", "plain", "interp",
+                                          "interp_var"]),
         })
 
     def files(self, case):
@@ -365,6 +369,11 @@ class Chain(Part):
             callee = out[0][0]
             lead = case["leads"][(level + 1) % 4]
             expr = "load: " + callee
+            form = case.get("call_form", "plain")
+            if form == "interp":
+                expr = "load: ${'%s'}.pt" % callee[:-3]
+            elif form == "interp_var":
+                expr = "load: ${stem}%s" % callee[1:]
             if filler and level == d - 1:
                 src = ("<html>" + lead + '<body metal:use-macro="' + expr +
                        '"><p metal:fill-slot="s">' + inner +
@@ -414,7 +423,7 @@ class Chain(Part):
         rec, boom = exprs.make_callables(log)
         o = run(PageTemplateFile, os.path.join(d, files[0][0]))
         if o.ok:
-            o = run(o.value.render, boom=boom, rec=rec)
+            o = run(o.value.render, boom=boom, rec=rec, stem="f")
         shutil.rmtree(d, ignore_errors=True)
         if o.ok:
             return Mismatch("chain:output returned", dict(detail,
